@@ -406,6 +406,11 @@ func runResolve(sc *RScenario) []map[string]any {
 		} else if pt.ByName > 0 {
 			tv = regName[pt.ByName-1]
 		}
+		if pt.Tag != "func" && sc.Seed%3 == 1 {
+			// the name part of the tag is computed: a placeholder that resolves (by its default) to the name, or to nothing for a
+			// by-type point - what counts is the tag after resolution, not the tag as written
+			tv = "${verif.nokey.f" + fmt.Sprint(i) + ":" + tv + "}"
+		}
 		if pt.HasQ {
 			tv += ",qualifier=" + strings.Join(pt.Q, " ")
 		}
